@@ -67,6 +67,7 @@ class Runner:
         self.ctx, self.enter, self.user_hook = ctx, set(enter), hook
         self.asserts = asserts
         self.ext = ext or {}
+        self.depth = 0
         self.trace = []
 
     def call_fn(self, fn, args, kwargs=None):
@@ -91,6 +92,8 @@ class Runner:
                 env[n] = Ev({}).ev(defaults[di])
         for p, d in zip(a.kwonlyargs, a.kw_defaults):
             env[p.arg] = kwargs[p.arg] if p.arg in kwargs else (Ev({}).ev(d) if d is not None else None)
+        for k, v in EXTRA_GLOBALS.items():
+            env.setdefault(k, v)
         for cname in self.ctx.model.classes:
             env.setdefault(cname, Obj("class:" + cname))
         for mod in ("np", "math", "pynurbs", "fractions"):
@@ -157,4 +160,17 @@ class Runner:
         if isinstance(f, ast.Name) and f.id == "Fraction":
             from fractions import Fraction
             return Fraction(*args)
+        # a helper of the repository that the rule did not abstract: interpret its body too (bounded depth), so that
+        # extracting a helper function does not make a rule inconclusive
+        cands = [t for t in inf.targets(call, ("call",)) if t.kind in ("static", "func", "method", "class")]
+        if len(cands) == 1 and self.depth < 6:
+            t = cands[0]
+            self.depth += 1
+            try:
+                if t.kind == "method" and recv is not None:
+                    return self.call_fn(t, [recv] + args, kwargs)
+                if t.kind in ("static", "func", "class"):
+                    return self.call_fn(t, args, kwargs)
+            finally:
+                self.depth -= 1
         return NotImplemented
